@@ -370,9 +370,10 @@ def mpslexSession : P (List String) := do
       | "isnum" => do let _ ← pTok; pure ((Qsx.MpsLex.nextFieldIsNumber s).map fun (a, b) => (a, 0, if b then " 1" else " 0"))
       | "eol" => pure ((Qsx.MpsLex.checkEndOfLine s).map fun (a, b) => (a, 0, if b then " 1" else " 0"))
       | "seteol" => pure ((Qsx.MpsLex.setEndOfLine s).map fun a => (a, 0, ""))
+      | "sec" => do let k ← pNat; pure (some ({ s with noType := k == 1 }, 0, ""))
       | _ => failure : P (Option (Qsx.MpsLex.St × Int × String)))
     if dead then out := out ++ ["mx OOB"] else
-    if s.pnull && op != "nl" then out := out ++ ["mx NULLP"] else      -- the harness does not make the call either
+    if s.pnull && op != "nl" && op != "sec" then out := out ++ ["mx NULLP"] else      -- the harness does not make the call either
     match r with
     | some (s', rc, extra) => s := s'; out := out ++ [show_ s' rc extra]
     | none => dead := true; out := out ++ ["mx OOB"]
